@@ -74,7 +74,7 @@ func c15RunDir(t testing.TB, tr *verifkit.Trace, base string, n int, sizeMax int
 			t.Fatalf("materialise scenario %d: %v", n, err)
 		}
 	}
-	opts := index.Options{IndexDir: idx, SizeMax: sizeMax, DisableCTags: true}
+	opts := index.Options{IndexDir: idx, SizeMax: sizeMax, DisableCTags: true, ShardMax: 1 << 20, Parallelism: 1}
 	opts.SetDefaults()
 	opts.RepositoryDescription.Name = "repo"
 	ign := map[string]struct{}{}
